@@ -20,25 +20,35 @@ from vlib.core import cz, cbool, clist
 
 MANIFEST = dict(
     text='Theorems (Coq; any number of processes, each a main thread running any script of put/get/task_done/join calls plus '
-         'its feeder thread Queue._feed; any capacity; any schedule at semaphore/pipe-operation grain, timed acquires and polls '
-         'giving up at any step; all Closed under the global context), about the programs compiled from queues.py on every run '
-         '(Gen = Model by reflexivity; _feed is a hand translation guarded by an exact-text check): an inductive invariant holds in '
-         'every reachable state: capacity accounting sem + buffered + in pipe + in transit = maxsize (so at most maxsize items wait '
-         'and no release of the capacity semaphore raises); reader lock, writer lock and each _notempty lock have one holder; per '
-         'producer, the messages its puts appended = sent by its feeder ++ held by the feeder ++ buffered, in order; the pipe is '
-         'FIFO (send log = received ++ in pipe); the send log is a merge of the producers; hence no loss and no duplication '
-         '(multiset identity). On the scheduler choice go a put fails with Full exactly when the semaphore is 0; a non-blocking get '
-         'finds nothing exactly when the pipe is empty; a put appends exactly its argument. Correspondence: the real Queue / '
-         'JoinableQueue / SimpleQueue, including the real feeder Queue._feed, run over the fake _semlock / pipe / threading of '
-         'harness/detsched.py + c16_fakes.py under explicit schedules and must produce the micro-trace, results, final semaphores, '
-         'pipe and buffers the Coq interpreter computes; Gallina monitors (loss/dup/order on the pipe traffic, results vs events, '
-         'capacity at quiet ends, join/task_done) classify differences.',
+         'its feeder thread Queue._feed; any capacity; any schedule at semaphore/pipe/clock-operation grain, timed acquires and '
+         'polls giving up at any step, the deadline of a timed get passing at any clock reading; all Closed under the global '
+         'context), about the programs compiled from queues.py on every run (Gen = Model by reflexivity; _feed is a hand '
+         'translation guarded by an exact-text check): an inductive invariant holds in every reachable state: capacity '
+         'accounting sem + buffered + in pipe + in transit = maxsize (so at most maxsize items wait and no release of the '
+         'capacity semaphore raises); reader lock, writer lock and each _notempty lock have one holder on every path (including '
+         'the Empty paths of a timed get); per producer, the messages its puts appended = sent by its feeder ++ held by the '
+         'feeder ++ buffered, in order; the pipe is FIFO; the send log is an ORDER-PRESERVING merge of the producers (its '
+         'entries written by p are exactly p\'s send log); every message received is returned by exactly one get call or held '
+         'by a get about to return it, hence put-to-get exactness (accepted = returned + held + in pipe + with a feeder + '
+         'buffered, as multisets); _unfinished_tasks = puts counted - task_dones counted, task_done raises ValueError exactly '
+         'when that is 0 and join\'s test reads zero exactly then. On the choice go a put fails with Full exactly when the '
+         'semaphore is 0; a non-blocking get finds nothing exactly when the pipe is empty. REFUTED (C16_lose_nothing_refuted, '
+         'witness replayed on the real classes): "lose nothing" is false of the code: when ForkingPickler.dumps raises in the '
+         'feeder, Queue._feed returns (its except clause is outside the loop); the token of the dropped item is never returned '
+         'and everything that process puts afterwards is accepted and never delivered. Correspondence: the real Queue / '
+         'JoinableQueue / SimpleQueue, including the real feeder Queue._feed, run over the fake _semlock / pipe / threading / '
+         'clock of harness/detsched.py + c16_fakes.py under explicit schedules (items that cannot be pickled and deadlines that '
+         'pass included) and must produce the micro-trace, results, final semaphores, pipe and buffers the Coq interpreter '
+         'computes; Gallina monitors (loss/dup/order on the pipe traffic, results vs events, capacity at quiet ends incl. the '
+         'tokens lost with a dead feeder, locks held by finished calls, a get stuck beside a non-empty pipe, join/task_done) '
+         'classify differences.',
     note='Trusted: Coq kernel; translate/kernels/semprog.py; semaphore primitive as in C17; threading.Condition modelled by '
          'harness/c16_fakes.TCond (lock + notification semaphore + waiter count); pipe = list of whole messages (C13 + locks), send '
-         'never blocks; pickling not modelled (messages are integers). PARTIAL: JoinableQueue.join/task_done exactness and '
-         'SimpleQueue are covered by the correspondence and monitors only (the proved invariant covers their puts/gets); Empty '
-         'timing and Full for timed puts are oracle choices; "returned by exactly one get" is proved as a safety identity '
-         '(eventual delivery is liveness, not modelled).',
+         'never blocks; pickling modelled only as far as it can fail (messages >= 1000 are objects whose pickling raises); the '
+         'deadline of a timed get is an oracle at the point where the code computes deadline - monotonic(). PARTIAL: the sleeping '
+         'path of JoinableQueue.join (wait/notify_all) and SimpleQueue are covered by the correspondence, the monitors and the '
+         'search on the generated program only; Full for timed puts is an oracle choice; eventual delivery is liveness, not '
+         'modelled. KNOWN DEFECT: feeder thread ends on a serialisation error (see C16_lose_nothing_refuted).',
     technique='Coq proof over translator-regenerated queue programs (weight functions + ghost logs + case analysis on pc) + schedule-exact differential correspondence on the real classes',
     ref='5.16',
 )
@@ -54,6 +64,9 @@ Import ListNotations. Open Scope Z_scope.
 '''
 
 KINDS = {'queue': 0, 'joinable': 1, 'simple': 2}
+UNPICKLABLE = 1000      # messages >= this are put as objects whose pickling raises
+FEEDER_SIG = 'C16:feeder-thread-ends-on-unpicklable-item-later-puts-never-delivered'
+
 
 # Search on the GENERATED program table (Model/QueueSearch.v: all schedules with at most
 # `preemptions` preemptions, every monitor of Model/QueueCheck.v judged at every leaf), `shards`
@@ -69,6 +82,9 @@ SEARCH_QUICK = [
          scripts=[[[0, 0, 1, 11], [0, 0, 0, 12]], [[1, 0, 1, 0], [1, 0, 0, 0]]]),
     dict(kind='simple', maxsize=1, preemptions=2, shards=[1],
          scripts=[[[6, 0, 0, 11], [6, 0, 0, 12]], [[7, 0, 0, 0]], [[7, 0, 0, 0]]]),
+    # timed gets (the scheduler decides at `deadline - monotonic()` whether the deadline has passed)
+    dict(kind='queue', maxsize=1, preemptions=1, shards=[1],
+         scripts=[[[0, 0, 1, 11]], [[1, 1, 1, 0], [1, 0, 1, 0]]]),
 ]
 # the quick tier when an obligation is broken (the generated program is no longer the hand-kept
 # model: failing-input search), and part of the thorough tier
@@ -87,6 +103,10 @@ SEARCH_DEEP = [
          scripts=[[[0, 0, 1, 11], [0, 1, 1, 12]], [[0, 0, 1, 13]], [[1, 0, 1, 0], [1, 1, 1, 0], [1, 0, 0, 0]]]),
     dict(kind='simple', maxsize=1, preemptions=3, shards=[1],
          scripts=[[[6, 0, 0, 11], [6, 0, 0, 12]], [[7, 0, 0, 0]], [[7, 0, 0, 0]]]),
+    dict(kind='queue', maxsize=1, preemptions=2, shards=[1],
+         scripts=[[[0, 0, 1, 11]], [[1, 1, 1, 0], [1, 0, 1, 0]]]),
+    dict(kind='queue', maxsize=2, preemptions=1, shards=[1],
+         scripts=[[[0, 0, 1, 11], [0, 1, 1, 12]], [[1, 1, 1, 0]], [[1, 1, 1, 0], [1, 1, 1, 0]]]),
 ]
 SEARCH_THOROUGH = [
     dict(kind='joinable', maxsize=1, preemptions=2, shards=[3, 3],
@@ -112,6 +132,16 @@ BOUNDED_QUICK = [
          scripts=[[[3, 0, 1, 11]], [[1, 0, 1, 0], [4, 0, 0, 0]]]),
     dict(kind='queue', maxsize=1, preemptions=1,
          scripts=[[[0, 0, 1, 11], [0, 0, 0, 12]], [[1, 0, 1, 0], [1, 0, 0, 0]]]),
+    # a timed get whose deadline passes at any point, followed by a plain get; two timed consumers
+    dict(kind='queue', maxsize=1, preemptions=1,
+         scripts=[[[0, 0, 1, 11]], [[1, 1, 1, 0], [1, 0, 1, 0]]]),
+    dict(kind='queue', maxsize=1, preemptions=1, max_leaves=200,
+         scripts=[[[0, 0, 1, 11]], [[1, 1, 1, 0]], [[1, 1, 1, 0]]]),
+    # an object that cannot be pickled, then a good one; a consumer waits
+    dict(kind='queue', maxsize=2, preemptions=1,
+         scripts=[[[0, 0, 1, 1000], [0, 0, 1, 12]], [[1, 0, 1, 0]]]),
+    dict(kind='joinable', maxsize=2, preemptions=0,
+         scripts=[[[3, 0, 1, 11], [3, 0, 1, 1000], [3, 0, 0, 13]], [[1, 0, 1, 0], [4, 0, 0, 0]]]),
 ]
 BOUNDED_THOROUGH = [
     dict(kind='joinable', maxsize=1, preemptions=2,
@@ -135,6 +165,8 @@ def gen_jobs(rng, n):
         maxsize = rng.choice([1, 1, 2, 2, 3])
         scripts = []
         msg = 10
+        # one job in five offers objects that cannot be pickled (Model/QueueProg.UNPICKLABLE)
+        poison = kind != 'simple' and rng.random() < 0.2
         for p in range(nprocs):
             sc = []
             for _c in range(rng.randint(1, 4)):
@@ -150,13 +182,13 @@ def gen_jobs(rng, n):
                 elif kind == 'queue':
                     if r < 0.5:
                         msg += 1
-                        sc.append([0, to, blk, msg])
+                        sc.append([0, to, blk, msg + (UNPICKLABLE if poison and rng.random() < 0.3 else 0)])
                     else:
                         sc.append([1, to, blk, 0])
                 else:
                     if r < 0.35:
                         msg += 1
-                        sc.append([3, to, blk, msg])
+                        sc.append([3, to, blk, msg + (UNPICKLABLE if poison and rng.random() < 0.3 else 0)])
                     elif r < 0.65:
                         sc.append([1, to, blk, 0])
                     elif r < 0.85:
@@ -307,10 +339,26 @@ def classify(res, records, codes):
         replay = dict(kind=r['kind'], maxsize=r['maxsize'], scripts=r['scripts'], sched=r['sched'], impl=dict(
             events=r['events'], results=r['results'], fins=r['fins'], vals=r['vals'], pipe=r['pipe'],
             bufs=r['bufs'], pend=r['pend'], end=r['end']))
-        if code == 2:
+        if code == 3:
+            dead = [t // 2 for t in range(1, len(r['fins']), 2) if r['fins'][t]]
+            stranded = {str(p): r['bufs'][p] for p in dead if r['bufs'][p]}
+            mains_done = all(r['fins'][t] for t in range(0, len(r['fins']), 2))
+            res.alarms.append(dict(
+                signature=FEEDER_SIG,
+                what='real %s (model and implementation agree, every other monitor passes): the feeder thread Queue._feed of '
+                     'process(es) %s ENDED after ForkingPickler.dumps raised for an unpicklable item (the `except Exception` '
+                     'of _feed is outside its `while 1`); items accepted by later puts stay in the dead feeder\'s buffer for '
+                     'ever: %s; capacity semaphore %d of maxsize %d with %d item(s) in the pipe%s; scripts %s, schedule %s, '
+                     'results %s, end %s'
+                     % (r['kind'], dead, json.dumps(stranded) if stranded else 'none in this run', r['vals'][0], r['maxsize'],
+                        len(r['pipe']), ' (every main thread has finished: the missing tokens are lost)' if mains_done else '',
+                        json.dumps(r['scripts']), json.dumps(r['sched']), json.dumps(r['results']), r['end']),
+                replay=replay))
+        elif code == 2:
             res.alarms.append(dict(
                 signature='C16:monitor-or-result',
-                what='real %s violates a C16 monitor (loss/duplication/order/capacity/Full/Empty/join) or returns a '
+                what='real %s violates a C16 monitor (loss/duplication/order/capacity/Full/Empty/join/lock left held/get '
+                     'stuck beside a non-empty pipe) or returns a '
                      'different result on the same history, under schedule %s of scripts %s: results %s, pipe %s, '
                      'end %s, blocked on %s%s'
                      % (r['kind'], json.dumps(r['sched']), json.dumps(r['scripts']), json.dumps(r['results']),
@@ -328,7 +376,7 @@ def correspond(res, n, deep):
     corpus = json.load(open(core.VERIF + '/corpus/C16.json'))
     jobs = [dict(c, mode='replay') for c in corpus]
     jobs += [dict(j, mode='enumerate', max_leaves=300) for j in ENUM_QUICK]
-    jobs += [dict(j, mode='bounded', max_leaves=1500) for j in BOUNDED_QUICK]
+    jobs += [{**dict(mode='bounded', max_leaves=1500), **j} for j in BOUNDED_QUICK]
     if res.tier != 'quick':
         jobs += [dict(j, mode='enumerate', max_leaves=6000) for j in ENUM_THOROUGH]
         jobs += [dict(j, mode='bounded', max_leaves=8000) for j in BOUNDED_THOROUGH]
@@ -385,6 +433,11 @@ def correspond(res, n, deep):
                 c16_messages_received=sum(1 for r in records for e in r['events'] if e[1] == 100 and e[2] == 4),
                 c16_full_raised=sum(1 for r in records for rs in r['results'] for v in rs if v == -4),
                 c16_empty_raised=sum(1 for r in records for rs in r['results'] for v in rs if v == -5),
+                c16_deadline_passed=sum(1 for r in records for e in r['events'] if e[1] == 101 and e[3] == 1),
+                c16_deadline_not_passed=sum(1 for r in records for e in r['events'] if e[1] == 101 and e[3] == 0),
+                c16_unpicklable_offered=sum(1 for r in records for sc in r['scripts'] for c in sc
+                                            if c[0] in (0, 3) and c[3] >= UNPICKLABLE),
+                c16_runs_with_ended_feeder=sum(1 for r in records if any(r['fins'][1::2])),
                 c16_enumerations_truncated=out['truncated'])
 
 
@@ -401,7 +454,9 @@ def run(res):
     res.assumptions += [
         'semaphore primitive as in C17 (Model/SemProg.v); threading.Condition modelled by harness/c16_fakes.TCond',
         'the pipe is a list of whole messages (C13 + reader/writer locks); send never blocks; pickling not modelled (messages are integers)',
-        'timed acquire / poll may give up at any step (deadline is an oracle)',
+        'timed acquire / poll may give up at any step; the deadline of a timed get passes or not at the clock reading '
+        '`deadline - monotonic()` as the scheduler chooses (deadline is an oracle)',
+        'ForkingPickler.dumps raises exactly for the messages >= 1000 (objects whose __reduce_ex__ raises) and is the identity otherwise',
         'one main thread per process; the queue is never closed; no process dies',
     ]
 
@@ -418,5 +473,7 @@ def replay(path):
     print('  results', json.dumps(r['results']), 'vals', r['vals'], 'pipe', r['pipe'], 'bufs', r['bufs'], 'end', r['end'])
     codes, _ = core.coq_eval('C16r', HEADER, [[to_coq(r)]])
     print('model agrees, monitors pass' if not codes else
-          ('property monitor fails / results differ (code 2)' if codes[0][1] == 2 else 'micro-trace differs (code 1)'))
+          ('property monitor fails / results differ (code 2)' if codes[0][1] == 2 else
+           'model and implementation agree; a feeder thread ended: later puts of its process are never delivered (code 3)'
+           if codes[0][1] == 3 else 'micro-trace differs (code 1)'))
     return 1 if codes else 0
